@@ -335,7 +335,8 @@ func (g *c1gen) simpleExpr(t *c1typ, vs []*c1var) string {
 	case c1Float:
 		return a + " " + g.r.pick([]string{"+", "-", "*"}) + " " + g.paren(b)
 	case c1String:
-		return a + " + " + b
+		// one side is a literal: no exponential growth of strings through repeated assignments
+		return a + " + " + g.r.pick(c1StrLits)
 	}
 	return g.r.pick([]string{"!", ""}) + a
 }
